@@ -37,7 +37,7 @@ ASSUMPTIONS = [
     'does not list it)',
 ]
 ANCHORS = ['Table.to_json', 'Table.from_json', 'NpEncoder.default', 'parse_biom_table', 'load_table']
-REQUIRED = ['written_under_other_numpy_printoptions', 'unencodable_metadata_refused', 'reader_parse_table_string', 'reader_load_table_handle',
+REQUIRED = ['tables_with_an_empty_axis', 'written_under_other_numpy_printoptions', 'unencodable_metadata_refused', 'reader_parse_table_string', 'reader_load_table_handle',
             'reader_cli_convert_to_json', 'writer_string_form', 'writer_direct_io_form',
             'reader_load_table', 'reader_load_table_gz',
             'reader_parse_table_handle', 'reader_parse_table_chunks',
@@ -92,6 +92,11 @@ def json_value(r, depth=0):
         return np.float32(r.choice([0.1, 1.5, 1e-7]))
     if x < .75:
         return np.bool_(r.random() < .5)
+    if x < .8 and depth == 0:
+        # a numpy array as a value (what array-producing code hands over)
+        return r.choice([np.array(['k__A', 'p__é']), np.array([1, 2, 3]),
+                         np.array([0.5, 2.5e-7]), np.array([], dtype=float),
+                         np.array([[1, 2], [3, 4]])])
     if depth < 2:
         return [json_value(r, depth + 1) for _ in range(r.randint(0, 3))]
     return wild(r, 0, 3)
@@ -104,7 +109,9 @@ def json_norm(v):
         return int(v)
     if isinstance(v, np.floating):
         return float(v)
-    if isinstance(v, list):
+    if isinstance(v, np.ndarray):
+        return [json_norm(x) for x in v.tolist()]
+    if isinstance(v, (list, tuple)):
         return [json_norm(x) for x in v]
     if isinstance(v, dict):
         return {k: json_norm(x) for k, x in v.items()}
@@ -113,7 +120,7 @@ def json_norm(v):
 
 def wild_md(r, ids):
     mode = r.choice(['none', 'homog', 'hetero', 'some-none', 'some-empty'])
-    if mode == 'none':
+    if mode == 'none' or not ids:
         return None
     keys = [wild(r, 1, 4) + str(k) for k in range(r.randint(1, 3))]
     md = []
@@ -133,7 +140,7 @@ def wild_md(r, ids):
 
 
 def has_numpy(v):
-    if isinstance(v, np.generic):
+    if isinstance(v, (np.generic, np.ndarray)):
         return True
     if isinstance(v, list):
         return any(has_numpy(x) for x in v)
@@ -196,11 +203,16 @@ def run_case(ctx, index):
         return unencodable_case(ctx, index, r)
     biom = ctx.biom
     n, m = r.randint(1, 5), r.randint(1, 5)
+    if r.random() < .06:
+        # a table with no ids on one axis (or on both) is a table too
+        n, m = r.choice([(0, m), (n, 0), (0, 0)])
+        ctx.count('tables_with_an_empty_axis')
     vclass = r.choice(['tiny', 'manydigits', 'huge', 'subnormal', 'frac',
                        'count', 'neg', 'mixed', 'bigcount', 'dyadic'])
     D = gen.gen_matrix(r, n, m, vclass, r.choice([0.0, .3, .7, 1.0]),
                        r.choice([None, None, 'zero-row', 'zero-col',
-                                 'single']))
+                                 'single'])) if n and m else \
+        np.zeros((n, m))
     if r.random() < .5:
         obs, samp = wild_ids(r, n, 'O'), wild_ids(r, m, 'S')
     else:
